@@ -88,6 +88,11 @@ func claimVariants(data []byte, P, S int) []claimVariant {
 		claimVariant{"duplicate-key-own-first", join(fmt.Sprintf(`"ParticipantId":%d`, S), fmt.Sprintf(`"ParticipantId":%d`, P)), P},
 		claimVariant{"duplicate-key-other-case", join(fmt.Sprintf(`"ParticipantId":%d`, S), fmt.Sprintf(`"participantId":%d`, P)), P},
 		claimVariant{"duplicate-key-own-last", join(fmt.Sprintf(`"ParticipantId":%d`, P), fmt.Sprintf(`"ParticipantId":%d`, S)), S},
+		// bytes after the request object: one decoder may stop at the end of the first value where
+		// the other refuses the whole data
+		claimVariant{"followed-by-a-second-value", append(append([]byte{}, data...), []byte(" 0")...), P},
+		claimVariant{"followed-by-a-second-object", append(append([]byte{}, data...), []byte(fmt.Sprintf(`{"ParticipantId":%d}`, S))...), P},
+		claimVariant{"followed-by-garbage", append(append([]byte{}, data...), []byte("}x")...), P},
 	)
 	return out
 }
